@@ -24,6 +24,7 @@ EXHAUSTIVE = False
 G = b"g"
 FATAL = [12, 22, 25, 27, 28, 29, 30, -1, 3, 15, 99]
 RETRY = [14, 16]
+IOKINDS = ["timeout", "other", "eof", "refused"]     # ("reset" is avoided: the model reports it as `other`, reported separately)
 
 
 # ---- log facts, computed here independently of cluster.py ----------------------------------------------------------
@@ -111,7 +112,7 @@ def rand_history(rng, su, n, faults=True):
             tp = rng.choice(assigned)
             offs = log_offsets(spec, tp)
             if offs and rng.random() < 0.95:
-                o = rng.choice(offs)
+                o = rng.choice(offs) if rng.random() < 0.5 else offs[int(len(offs) * rng.random() ** 0.4)]   # biased upwards
             else:
                 o = latest(spec, tp) + rng.randint(0, 4)
             h.append(("mark", tp, o))
@@ -124,8 +125,11 @@ def rand_history(rng, su, n, faults=True):
             elif y < 0.8:
                 tp = rng.choice(assigned)
                 h.append(("commit", ("code", tp, rng.choice(FATAL + RETRY))))
+            elif len(assigned) == 1:
+                # (with several dirty partitions the model cannot learn the HashMap order of a request that never arrived)
+                h.append(("commit", ("write", rng.choice(IOKINDS))))
             else:
-                h.append(("commit", ("write", rng.choice(["reset", "timeout", "other"]))))
+                h.append(("commit", None))
         else:
             h.append(("probe", rng.choice(assigned)))
     return h
@@ -254,11 +258,29 @@ def gen(rng, tier):
         tp = rng.choice(su["assigned"])
         offs = log_offsets(su["spec"], tp) or [2]
         h.append(("mark", tp, rng.choice(offs)))
-        h.append(("commit", ("lostreply", rng.choice(["reset", "timeout", "eof"]))))
+        h.append(("commit", ("lostreply", rng.choice(IOKINDS))))
         if i % 2:
             h.append(("commit", None))
         after = rand_history(rng, su, rng.randint(0, 4), faults=False)
         cases.append(build_case(rng, su, [h, after, []], ["drop", rng.choice(["drop", "keep"])], [], "lostreply"))
+    # 4. the commit request cannot be written (nothing reaches the coordinator); the next commit must carry the marks again.
+    #    A successful commit and a single mark precede it, so that at most one partition is listed
+    for i in range(50 if tier == "quick" else 500):
+        su = make_setup(rng)
+        h = rand_history(rng, su, rng.randint(0, 6), faults=False)
+        h.append(("commit", None))
+        rounds = rng.randint(1, 2)
+        for k in range(rounds):
+            tp = rng.choice(su["assigned"])
+            offs = log_offsets(su["spec"], tp) or [2]
+            h.append(("mark", tp, rng.choice(offs[len(offs) // 2:])))
+            h.append(("commit", ("write", rng.choice(IOKINDS))))
+            if rng.random() < 0.5:
+                h.append(("probe", tp))
+            if k < rounds - 1 or rng.random() < 0.7:
+                h.append(("commit", None))
+        cut = rng.randint(0, len(h))
+        cases.append(build_case(rng, su, [h[:cut], h[cut:], []], [rng.choice(["drop", "keep"]), "drop"], [], "writefault"))
     return cases
 
 
